@@ -140,16 +140,17 @@ def projRow (s : Bool) (r : List P) (ψ : Vec) : Vec := Vec.add ψ ((rowStr s r)
 def projAll (t : Tab) (ψ : Vec) : Vec :=
   (List.zip t.signs t.rows).foldl (fun v sr => projRow sr.1 sr.2 v) ψ
 
-/-- A non-zero vector stabilized by `t`: the first non-zero `Π(1+g_i)|k⟩`, canonicalised.  `none` if
-every basis vector is annihilated (then the rows do not generate a stabilizer group) or if the result
-is not actually stabilized (rows do not commute). -/
+/-- The state stabilized by `t`, if `t` describes one: the images `Π(1+g_i)|k⟩` of all basis vectors
+span the range of the (unnormalised) projector on the stabilized subspace.  `some w` iff that range
+is one ray (all non-zero images have the same canonical representative `w`) and `w` is fixed by every
+signed row.  `none` if every basis vector is annihilated (−1 is in the group), if the images span
+more than one ray (dependent rows, e.g. an identity row: the stabilized subspace has dimension > 1),
+or if the result is not actually stabilized (rows do not commute). -/
 def stateOf (t : Tab) : Option Vec :=
   let cands := (List.range (2 ^ t.n)).map fun k => projAll t (Vec.basis t.n k)
-  match cands.find? (fun v => !Vec.isZero v) with
-  | none => none
-  | some v =>
-    let w := Z8.canonRay v
-    if stabilizesB t w then some w else none
+  match (cands.filter (fun v => !Vec.isZero v)).map Z8.canonRay with
+  | [] => none
+  | w :: ws => if ws.all (· == w) && stabilizesB t w then some w else none
 
 /-! ### enumeration of stabilizer states -/
 
